@@ -168,6 +168,9 @@ func run(c Case) (msg string, nontrivial bool) {
 		}
 		switch op.Op {
 		case "ins":
+			if strings.HasPrefix(op.Val, "big:") {
+				op.Val = op.Val + strings.Repeat("B", 700<<10)
+			}
 			s.ins(op.Key, op.Val)
 			model[op.Key] = op.Val
 		case "rm":
@@ -370,6 +373,8 @@ func genCase(t *rapid.T) Case {
 		keys = genKeys(t)
 	}
 	n := rapid.IntRange(1, 12).Draw(t, "nops")
+	// now and then the values are large (a store that serialises to several MiB)
+	big := rapid.IntRange(0, 9).Draw(t, "bigValues") == 0
 	ops := make([]Op, 0, n)
 	for i := 0; i < n; i++ {
 		k := rapid.SampledFrom(keys).Draw(t, "key")
@@ -379,7 +384,11 @@ func genCase(t *rapid.T) Case {
 		}
 		switch x := rapid.IntRange(0, hi).Draw(t, "op"); {
 		case x < 4:
-			ops = append(ops, Op{"ins", k, fmt.Sprintf("v%d", rapid.IntRange(1, 3).Draw(t, "val"))})
+			v := fmt.Sprintf("v%d", rapid.IntRange(1, 3).Draw(t, "val"))
+			if big && rapid.IntRange(0, 2).Draw(t, "bigVal") == 0 {
+				v = "big:" + v // stands for a value of 700 KiB (expanded by the interpreter)
+			}
+			ops = append(ops, Op{"ins", k, v})
 		case x < 8:
 			ops = append(ops, Op{"rm", k, ""})
 		case x < 10:
